@@ -559,7 +559,7 @@ class Sugar:
         return True
 
     # -------------------------------------------------------------------------------- iterator pipelines
-    LAZY = {"map": "val", "filter": "ref", "filter_map": "val", "take_while": "ref", "map_while": "val", "inspect": "ref", "skip_while": "ref", "flat_map": "val"}
+    LAZY = {"map": "val", "filter": "ref", "filter_map": "val", "take_while": "ref", "map_while": "val", "inspect": "ref", "skip_while": "ref", "flat_map": "val", "flatten": "val"}
     CONSUMERS = {"find": "ref", "find_map": "val", "any": "val", "all": "val", "for_each": "val", "position": "val", "try_for_each": "val"}
 
     def chain_of(self, op, depth=12):
@@ -594,6 +594,10 @@ class Sugar:
             nm = dd.split("::")[-1]
             if dd.startswith("std::iter::Iterator::") and nm in self.LAZY and len(t["args"]) == 2:
                 adaptors.append((nm, t["args"][1], t))
+                op = t["args"][0]
+                continue
+            if dd == "std::iter::Iterator::flatten" and len(t["args"]) == 1:
+                adaptors.append(("flatten", None, t))
                 op = t["args"][0]
                 continue
             if dd in ("std::iter::IntoIterator::into_iter", "std::iter::Iterator::by_ref") and t["args"]:
@@ -639,6 +643,18 @@ class Sugar:
                 nxt_l = B.local("?")
                 nxt = build(i + 1, nxt_l, head)
                 return self.call_closure(B, clo, [M(cur)], P(nxt_l), nxt, dep, stack)
+            if nm == "flatten":
+                # each outer item is itself iterated (`IntoIterator::into_iter(item)`); its items flow on
+                if (head is not outer_head) or getattr(self, "_lazy_pull", False):
+                    raise _Unsupported("flatten below another flattening adaptor / in a lazily pulled pipeline")
+                it_l = B.local("?")
+                ph = B.block([], None)
+                call = {"k": "call", "def": "std::iter::IntoIterator::into_iter", "path": "std::iter::IntoIterator::into_iter", "name": "into_iter",
+                        "res": None, "args": [M(cur)], "arg_tys": ["?"], "dest": P(it_l), "dest_ty": "?", "t": ph, "span": B.span, "fn_span": B.span, "synthetic": True}
+                entry = B.block([], call)
+                ih = self._pull(B, P(it_l), [], lambda v, h2: build(i + 1, v, h2), lambda: head.new(), dep, stack, "?")
+                self.blocks[ph]["term"] = B.goto(ih)
+                return entry
             if nm == "flat_map":
                 # for each outer item the closure yields an iterator; its items flow on downstream and its
                 # end continues with the next outer item: a nested pull loop
@@ -800,7 +816,7 @@ class Sugar:
             if ch is None or not ch[1]:
                 return False
             base, adaptors = ch
-            if any(resolve_closure(self.facts, self.blocks, a[1])[0] is None for a in adaptors):
+            if any(a[1] is not None and resolve_closure(self.facts, self.blocks, a[1])[0] is None for a in adaptors):
                 return False
             dty = t.get("dest_ty") or ""
             wrap = None
@@ -877,7 +893,7 @@ class Sugar:
             if ch is None or not ch[1]:
                 return False
             base, adaptors = ch
-            if any(resolve_closure(self.facts, self.blocks, a[1])[0] is None for a in adaptors):
+            if any(a[1] is not None and resolve_closure(self.facts, self.blocks, a[1])[0] is None for a in adaptors):
                 return False
             bt = base_type(base)
 
